@@ -14,7 +14,12 @@ from harness.observe import DETECTORS
 
 SIZES = {"quick": {"hist": 36, "seeds": ["0", "1", "2", "random"]},
          "thorough": {"hist": 400, "seeds": ["0", "1", "2", "3", "7", "random", "random", "random"]}}
-NCONTRACTS = 8
+# two further contracts are written by hand: they compare address fields with RUN-TIME operands (outside the fragment of
+# C01-C10, inside C14's quantifier: "all sequences of previously analysed contracts") - the tool names such operands
+# symbolically, and the names must not depend on what was analysed before
+EXTRA = ["#pragma version 6\ntxn RekeyTo\ntxn Sender\n==\nassert\ntxn CloseRemainderTo\nglobal ZeroAddress\n==\nbz fail\nint 1\nreturn\nfail:\nerr\n",
+         "#pragma version 6\ntxn CloseRemainderTo\ntxn Receiver\n==\nassert\nload 3\ntxn AssetCloseTo\n==\nassert\nint 1\nreturn\n"]
+NCONTRACTS = 10
 ORDERS = [DETECTORS, list(reversed(DETECTORS)), DETECTORS[4:] + DETECTORS[:4]]
 MAXLEN = 3
 
@@ -56,7 +61,7 @@ def run_history(job, hashseed):
 def run_session(tier, seed):
     cfgsz = SIZES[tier]
     contracts = pick_contracts(seed)
-    texts = [render(c["prog"]) for c in contracts]
+    texts = [render(c["prog"]) for c in contracts] + EXTRA
     gcfg = ("INIT GInit\nNEXT GNext\nINVARIANT Emit\nCHECK_DEADLOCK FALSE\nCONSTANTS\n  NContracts = %d\n  NOrders = %d\n"
             "  Seed = %d\n  NHist = %d\n  MaxLen = %d\n  All = FALSE\n" % (NCONTRACTS, len(ORDERS), seed, cfgsz["hist"], MAXLEN))
     res = run_tlc("SessionGen", gcfg, workers=2)
@@ -132,7 +137,7 @@ def collect(prop, tier, seed):
         raise fw.Machinery("vacuous: no history with more than one action")
     cov = {"states": tot["states"], "transitions": tot["transitions"], "traces_validated_against_impl": tot["histories"],
            "evaluations": tot["histories"], "distinct_nontrivial": tot["multi_action"], "hash_seeds": tot["hash_seeds"],
-           "rule": "SessionTrace.tla: histories of Session.tla (up to %d actions over %d sensitising contracts x %d detector "
+           "rule": "SessionTrace.tla: histories of Session.tla (up to %d actions over %d sensitising contracts (8 generated, 2 with run-time address operands) x %d detector "
                    "orders, Rerun included) drawn by SessionGen.tla, each replayed in one fresh interpreter (hash seeds "
                    "rotating) and validated as a trace against the results of fresh single-action processes; non-trivial = "
                    "histories with more than one action" % (MAXLEN, NCONTRACTS, len(ORDERS)),
